@@ -269,6 +269,20 @@ Fixpoint u_apply_all (us : list upd) (st : ustate) : outcome ustate :=
   | u :: rest => do st' <- u_apply u st; u_apply_all rest st'
   end.
 
+(* several transfers against the same zone, one ZoneUpdater each.  Dropping an
+   updater (finished or not) discards its private working copy: WriteZone::drop
+   rolls the unpublished version back when `dirty` is set, which open() arms on
+   every (re)open.  The next updater therefore starts from what is visible.
+   Result: the visible content after each transfer. *)
+Fixpoint u_transfers (uss : list (list upd)) (z : zone) : outcome (list zone) :=
+  match uss with
+  | [] => Ok []
+  | us :: rest =>
+      do st <- u_apply_all us (u_start z);
+      do zs <- u_transfers rest (u_visible st);
+      Ok (u_visible st :: zs)
+  end.
+
 (* ---- sender side: the record sequences (xfr middleware ZoneFunneler /
    DiffFunneler order) ---- *)
 Definition axfr_seq (s : N) (recs : list N) : list rr :=
@@ -410,5 +424,6 @@ Definition d_start (pub : store) : dstate := mkD pub pub [] [].
 (* ---- entry points for the correspondence driver ---- *)
 Definition c10_run (ms : list msg) : list upd * status := run None ms.
 Definition c10_apply (z0 : zone) (us : list upd) : outcome ustate := u_apply_all us (u_start z0).
+Definition c10_transfers (z0 : zone) (uss : list (list upd)) : outcome (list zone) := u_transfers uss z0.
 Definition c10_check (first : bool) (h : hdr) : bool := check_response first h.
 Definition c10_diff (pub : store) (ops : list dop) : list (option (store * store)) := snd (d_run ops (d_start pub)).
